@@ -652,7 +652,13 @@ func TestC16Sim(t *testing.T) {
 		if inFlight {
 			t.Class("stop-with-request-in-flight")
 		}
-		t.Note("@%s STOP graceful=%v (pending requests: %d)", s.clock(), graceful, len(s.Pending()))
+		if t.Weighted("flipAfterStop", 3, 1) == 1 {
+			// validation failures in flight while stopping: more than the retry channel holds
+			s.flipsAfterStop = t.IntRange("nFlips", 1, 12)
+			t.Class("validation-failures-after-stop")
+		}
+		flips := s.flipsAfterStop
+		t.Note("@%s STOP graceful=%v (pending requests: %d, data requests to be corrupted afterwards: %d)", s.clock(), graceful, len(s.Pending()), flips)
 		bound := 30 * time.Second
 		if graceful {
 			t.Class("graceful")
@@ -695,7 +701,7 @@ func TestC16Sim(t *testing.T) {
 				s.viol("C16", "confirmation-not-recorded", "%s#%.6s was confirmed to the sender before it exited gracefully, but the persisted queue cache does not mark it done", name, hash)
 			}
 		}
-		if graceful && !p.Faults {
+		if graceful && !p.Faults && flips == 0 {
 			// everything the scans found is transmitted and confirmed
 			for _, name := range s.names() {
 				v := s.lastVersion(name)
